@@ -5,6 +5,11 @@ import "time"
 var _ = time.Second
 
 func init() {
+	reg("C20", propCfg{
+		index: 20,
+		rule: "cases are accepted configurations from the scope-heavy behavioural generator (shared, contextual, non_shared services; parameters with counted functions, multi-chunk patterns, env readers) with a rapid-drawn concurrent script: 1..3 rounds, each on a fresh container with 4, 16 or 64 goroutines released by a barrier, each running one of 1..4 drawn programmes of Get / GetInContext(A|B) / GetParam / GetTaggedBy, Gosched at drawn points, GOMAXPROCS 2 or 16; the probe is built with -race (halt_on_error). Oracle: no race report, crash or deadlock; every result structurally equals the sequential DI model's; every shared service has one instance serial over all goroutines; a contextual service has one instance per attached context and never the same in two contexts; Count-ed parameter functions that only occur in parameters ran exactly as often as in the sequential model (each parameter evaluated at most once). Non-trivial = a round with at least two goroutines; distinct by hash of (configuration, style, script)",
+		assume: []string{"the harness does not own the Go scheduler: schedules are sampled under the race detector, not enumerated"},
+	})
 	reg("C17", propCfg{
 		index: 17,
 		rule: "cases are configurations from the full generator (accepted ones) and the same with one injected defect (rejected ones); every case is run in normal and in --stub mode and the two are compared pairwise: same accept/reject decision with the same diagnostic facts; the stub starts with the //go:build gontainerstub and // +build gontainerstub lines; identical package clause and identical set of declared types, functions and methods with identical signatures (go/parser, private runtime helpers excluded); both are compiled (stub with -tags gontainerstub) and reflected in a probe: equal type name and exported method sets with identical fully-qualified signatures; the stub additionally compiles against a variant of the fixture module whose user packages declare types only; calling the stub constructor and every stub getter / must-getter panics with \"stub\". Non-trivial = a configuration with at least one getter that has a declared type; distinct by hash of (configuration, style)",
